@@ -7,7 +7,7 @@ import optlib
 
 
 def run(ctx):
-    optlib.run_property(ctx, "C15", 1200, 6000)
+    optlib.run_property(ctx, "C15", 1200, 20000)
 
 
 def replay(ctx, data):
